@@ -1,7 +1,7 @@
 (* C05 property theorems about the CURRENT code (statements only; proofs in C05/Proofs.v, Trim.v,
    Tables.v, Optimal.v).  Pre-fix variants and their refutations: C05/Historic.v. *)
 From Coq Require Import ZArith QArith List Bool.
-From QV Require Import C05.Model C05.Proofs C05.Trim C05.Tables C05.Optimal.
+From QV Require Import C05.Model C05.Proofs C05.Trim C05.Tables C05.Optimal C05.Eig.
 Import ListNotations.
 Open Scope Q_scope.
 
@@ -58,6 +58,17 @@ Theorem C05_trim_generic_eq_numba : forall m cutoff max_bond renorm s, nonneg s 
   trim_equiv (g_trim m cutoff max_bond renorm s) (n_trim m cutoff max_bond renorm s).
 Proof. exact trim_agree. Qed.
 Print Assumptions C05_trim_generic_eq_numba.
+
+(* Static truncation inside the SVD-via-eigendecomposition driver (`s2[-max_bond:]` on eigh's
+   ASCENDING spectrum, before the optional flip): for either requested order it keeps exactly the
+   values the shared truncation routine keeps - the max_bond largest - and the same number. *)
+Theorem C05_svd_eig_static_truncation_keeps_largest : forall m (c : Q) max_bond (s : list Q),
+  (max_bond = -1 \/ 1 <= max_bond)%Z -> c <= 0 ->
+  eig_shortcut_svals (rev s) max_bond true = t_svals (n_trim m c max_bond 0 s)
+  /\ rev (eig_shortcut_svals (rev s) max_bond false) = t_svals (n_trim m c max_bond 0 s)
+  /\ lenZ (eig_shortcut_svals (rev s) max_bond false) = n_kept m c max_bond 0 s.
+Proof. exact eig_shortcut_keeps_largest. Qed.
+Print Assumptions C05_svd_eig_static_truncation_keeps_largest.
 
 (* Reported error^2 = (sum of all squares) - (sum of kept squares) = sum of discarded squares. *)
 Theorem C05_error_is_discarded_weight : forall m cutoff max_bond renorm s, (max_bond = -1 \/ 1 <= max_bond)%Z ->
